@@ -532,4 +532,17 @@ MUTANTS += [
         } // clang-format on
 #endif""",
      "new": """        _dispatch_transit_event_to_sinks(te, thread_id, thread_name);"""},
+    {"id": "c08-revert-f23", "props": ["C08"], "file": "quill/Logger.h",
+     "desc": "dropped LOG_RUNTIME_METADATA statements are not counted again (finding F23 comes back)",
+     "old": """        if ((macro_metadata->event() == MacroMetadata::Event::Log) ||
+            (macro_metadata->event() == MacroMetadata::Event::LogWithRuntimeMetadata))
+        {
+          thread_context->increment_failure_counter();
+        }
+        return false;""",
+     "new": """        if (macro_metadata->event() == MacroMetadata::Event::Log)
+        {
+          thread_context->increment_failure_counter();
+        }
+        return false;"""},
 ]
